@@ -12,81 +12,82 @@ Variable after_move : V -> option V.
 Variable p : V -> bool.
 Notation cell := (cell V).
 Notation arr := (arr V).
-Definition keep (v : V) : bool := negb (p v).
+Definition keep (o : option V) : bool := negb (holds V p o).
+Notation hp := (holds V p).
 
-Lemma firstn_S_nth (l : list V) i d : i < length l -> firstn (S i) l = firstn i l ++ [nth i l d].
+Lemma firstn_S_nth {A} (l : list A) i (d : A) : i < length l -> firstn (S i) l = firstn i l ++ [nth i l d].
 Proof.
   revert i; induction l; intros i Hi; simpl in Hi; [lia|]. destruct i; simpl; auto. f_equal. apply IHl. lia.
 Qed.
 
-Lemma filter_keep_all (l : list V) d : (forall j, j < length l -> p (nth j l d) = false) -> filter keep l = l.
+Lemma filter_keep_all (l : list (option V)) : (forall j, j < length l -> hp (nth j l None) = false) -> filter keep l = l.
 Proof.
   induction l; intros H; simpl; auto. pose proof (H 0 ltac:(simpl; lia)) as H0. simpl in H0.
   unfold keep at 1. rewrite H0. simpl. f_equal.
   apply IHl. intros j Hj. apply (H (S j)). simpl; lia.
 Qed.
 
-Lemma filter_len_le (f : V -> bool) (l : list V) : length (filter f l) <= length l.
+Lemma filter_len_le {A} (f : A -> bool) (l : list A) : length (filter f l) <= length l.
 Proof. induction l; simpl; auto. destruct (f a); simpl; lia. Qed.
 
-Lemma skip_kept_ok (l : list V) r d : forall fuel k,
-  length l - k < fuel -> k <= length l -> (forall j, j < k -> p (nth j l d) = false) ->
-  exists k', skip_kept V fuel p (arr_of l r) k = Ok k' /\ k' <= length l /\
-    (forall j, j < k' -> p (nth j l d) = false) /\ (k' < length l -> p (nth k' l d) = true).
+Lemma skip_kept_ok (l : list (option V)) r : forall fuel k,
+  length l - k < fuel -> k <= length l -> (forall j, j < k -> hp (nth j l None) = false) ->
+  exists k', skip_kept V fuel p (arr_ofo l r) k = Ok k' /\ k' <= length l /\
+    (forall j, j < k' -> hp (nth j l None) = false) /\ (k' < length l -> hp (nth k' l None) = true).
 Proof.
-  destruct (arr_of_pre V l r d) as (Hc & _ & Hlive & _).
-  induction fuel; intros k Hf Hk Hall; [lia|]. simpl skip_kept. change (cnt (arr_of l r)) with (length l).
+  destruct (arr_ofo_pre V l r) as (Hc & _ & Hlive & _).
+  induction fuel; intros k Hf Hk Hall; [lia|]. simpl skip_kept. change (cnt (arr_ofo l r)) with (length l).
   destruct (Nat.ltb_spec k (length l)).
-  - rewrite (item_at_ok V (arr_of l r) k (nth k l d)) by auto. simpl.
-    destruct (p (nth k l d)) eqn:Hp.
+  - rewrite (item_at_ok V (arr_ofo l r) k (nth k l None)) by auto. simpl.
+    destruct (hp (nth k l None)) eqn:Hp.
     + exists k. repeat split; auto.
     + apply IHfuel; try lia. intros j Hj. destruct (Nat.eq_dec j k); [subst; auto|apply Hall; lia].
   - exists k. repeat split; auto. lia.
 Qed.
 
-Theorem remove_filter_refines (l : list V) r :
-  remove_filter V self_move after_move p (arr_of l r) =
-    Ok (arr_of (filter keep l) (r + (length l - length (filter keep l))), length l - length (filter keep l)).
+Theorem remove_filter_refines (l : list (option V)) r :
+  remove_filter V self_move after_move p (arr_ofo l r) =
+    Ok (arr_ofo (filter keep l) (r + (length l - length (filter keep l))), length l - length (filter keep l)).
 Proof.
   destruct l as [|d l0].
   { simpl. unfold remove_filter. simpl. unfold for_up. simpl. rewrite Nat.add_0_r. reflexivity. }
   remember (d :: l0) as l eqn:Heql. assert (Hn0 : 0 < length l) by (subst; simpl; lia). clear Heql l0.
   remember (length l) as n eqn:Heqn.
-  destruct (arr_of_pre V l r d) as (Hc & Hcap & Hlive & Hraw). rewrite <- Heqn in Hc, Hcap, Hlive, Hraw.
+  destruct (arr_ofo_pre V l r) as (Hc & Hcap & Hlive & Hraw). rewrite <- Heqn in Hc, Hcap, Hlive, Hraw.
   unfold remove_filter. cbv zeta. rewrite Hc.
-  destruct (skip_kept_ok l r d (S n) 0 ltac:(lia) ltac:(lia) ltac:(intros j Hj; lia)) as (k0 & -> & Hk0 & Hpre & Hat).
+  destruct (skip_kept_ok l r (S n) 0 ltac:(lia) ltac:(lia) ltac:(intros j Hj; lia)) as (k0 & -> & Hk0 & Hpre & Hat).
   rewrite <- Heqn in Hk0, Hat. simpl bind.
   assert (Hlen_le : forall i, length (filter keep (firstn i l)) <= i).
   { intros i. etransitivity; [apply filter_len_le|]. rewrite firstn_length. lia. }
   destruct (Nat.eq_dec k0 n) as [->|Hne].
   - (* nothing is removed *)
     rewrite for_up_none by lia. simpl.
-    assert (Hall : filter keep l = l) by (apply (filter_keep_all l d); intros j Hj; apply Hpre; rewrite Heqn; auto).
+    assert (Hall : filter keep l = l) by (apply (filter_keep_all l); intros j Hj; apply Hpre; rewrite Heqn; auto).
     rewrite Hall. rewrite <- Heqn. rewrite Nat.sub_diag.
-    unfold remove_back. rewrite Hc. simpl. rewrite Nat.sub_0_r, Nat.add_0_r. unfold arr_of. rewrite <- Heqn. reflexivity.
+    unfold remove_back. rewrite Hc. simpl. rewrite Nat.sub_0_r, Nat.add_0_r. unfold arr_ofo. rewrite <- Heqn. reflexivity.
   - assert (Hk0n : k0 < n) by lia. specialize (Hat Hk0n).
     pose (I := fun i (st : arr * nat) => let (s, k) := st in
        k < i /\ k = length (filter keep (firstn i l)) /\ cnt s = n /\ length (cells s) = n + r /\
-       (forall j, j < k -> get (cells s) j = Live (nth j (filter keep (firstn i l)) d)) /\
+       (forall j, j < k -> get (cells s) j = mcell (nth j (filter keep (firstn i l)) None)) /\
        (forall j, k <= j -> j < i -> get (cells s) j <> Raw) /\
-       (forall j, i <= j -> get (cells s) j = if j <? n then Live (nth j l d) else Raw)).
+       (forall j, i <= j -> get (cells s) j = if j <? n then mcell (nth j l None) else Raw)).
     match goal with |- context [for_up ?fu ?lo ?hi ?body ?st0] =>
       destruct (for_up_inv I body (k0 + 1) n) with (fuel := fu) (i := lo) (s := st0) as ([s1 k1] & -> & HI) end; try lia.
     { intros i [s k] Hlo Hi (Hki & Hk & Hcs & Hls & H1 & H2 & H3).
-      assert (Hsrc : get (cells s) i = Live (nth i l d)).
+      assert (Hsrc : get (cells s) i = mcell (nth i l None)).
       { rewrite H3 by lia. destruct (Nat.ltb_spec i n); [auto|lia]. }
-      rewrite (item_at_ok V s i (nth i l d)) by (auto; lia). simpl bind. unfold holds.
-      assert (Hfs : firstn (S i) l = firstn i l ++ [nth i l d]) by (apply firstn_S_nth; lia).
-      destruct (p (nth i l d)) eqn:Hp.
-      - assert (Hkp : keep (nth i l d) = false) by (unfold keep; rewrite Hp; auto).
+      rewrite (item_at_ok V s i (nth i l None)) by (auto; lia). simpl bind.
+      assert (Hfs : firstn (S i) l = firstn i l ++ [nth i l None]) by (apply firstn_S_nth; lia).
+      destruct (hp (nth i l None)) eqn:Hp.
+      - assert (Hkp : keep (nth i l None) = false) by (unfold keep; rewrite Hp; auto).
         eexists; split; [reflexivity|]. unfold I. rewrite Hfs, filter_app. simpl. rewrite Hkp.
         rewrite app_nil_r. repeat split; auto; try lia.
-        + intros j Hj1 Hj2. destruct (Nat.eq_dec j i); [subst; rewrite Hsrc; discriminate|apply H2; lia].
+        + intros j Hj1 Hj2. destruct (Nat.eq_dec j i); [subst; rewrite Hsrc; apply (mcell_not_raw V)|apply H2; lia].
         + intros j Hj. apply H3; lia.
       - assert (Hdst : get (cells s) k <> Raw) by (apply H2; lia).
-        rewrite (move_assign_items_ok V self_move after_move s i k (nth i l d)); try lia; auto.
+        rewrite (move_assign_items_ok V self_move after_move s i k (nth i l None)); try lia; auto.
         simpl bind. eexists; split; [reflexivity|]. unfold I. cbn [cells cnt].
-        assert (Hkp : keep (nth i l d) = true) by (unfold keep; rewrite Hp; auto).
+        assert (Hkp : keep (nth i l None) = true) by (unfold keep; rewrite Hp; auto).
         rewrite Hfs, filter_app. simpl. rewrite Hkp. rewrite app_length. simpl.
         rewrite !length_set.
         assert (Hkl : k < length (cells s)) by (apply get_not_raw_lt; auto).
@@ -96,20 +97,20 @@ Proof.
           * subst j. rewrite app_nth2 by lia. rewrite <- Hk, Nat.sub_diag. reflexivity.
           * rewrite app_nth1 by lia. apply H1. lia.
         + intros j Hj1 Hj2. rewrite get_set by (rewrite length_set; lia).
-          destruct (Nat.eqb_spec j i); [apply mcell_not_raw|]. rewrite get_set_other by lia. apply H2; lia.
+          destruct (Nat.eqb_spec j i); [apply src_after_not_raw|]. rewrite get_set_other by lia. apply H2; lia.
         + intros j Hj. rewrite !get_set_other by lia. apply H3; lia. }
     { unfold I.
       assert (Hf0 : filter keep (firstn k0 l) = firstn k0 l).
-      { apply (filter_keep_all _ d). intros j Hj. rewrite firstn_length in Hj.
+      { apply (filter_keep_all _). intros j Hj. rewrite firstn_length in Hj.
         rewrite nth_firstn_lt by lia. apply Hpre. lia. }
       assert (Hf1 : filter keep (firstn (k0 + 1) l) = firstn k0 l).
-      { rewrite Nat.add_1_r, (firstn_S_nth l k0 d) by lia. rewrite filter_app, Hf0. simpl.
+      { rewrite Nat.add_1_r, (firstn_S_nth l k0 None) by lia. rewrite filter_app, Hf0. simpl.
         unfold keep at 1. rewrite Hat. simpl. apply app_nil_r. }
       rewrite Hf1. rewrite firstn_length. rewrite <- Heqn.
       split; [lia|]. split; [lia|]. split; [exact Hc|].
-      split; [unfold arr_of; cbn [cells]; rewrite length_lives_raws, <- Heqn; reflexivity|].
+      split; [unfold arr_ofo; cbn [cells]; rewrite length_objs_raws, <- Heqn; reflexivity|].
       split; [intros j Hj; rewrite Hlive by lia; rewrite nth_firstn_lt by lia; reflexivity|].
-      split; [intros j Hj1 Hj2; rewrite Hlive by lia; discriminate|].
+      split; [intros j Hj1 Hj2; rewrite Hlive by lia; apply (mcell_not_raw V)|].
       intros j Hj. destruct (Nat.ltb_spec j n); [apply Hlive; auto|apply Hraw; auto]. }
     destruct HI as (Hk1n & Hk1 & Hcs & Hls & H1 & H2 & H3).
     assert (Hfn : firstn n l = l) by (rewrite Heqn; apply firstn_all).
@@ -117,10 +118,10 @@ Proof.
     destruct (remove_back_ok V s1 (n - k1)) as (c' & He & Hl' & Hg'); try (unfold cap; lia).
     { intros j Hj. apply H2; lia. }
     rewrite He. simpl bind. rewrite <- Hk1. f_equal. f_equal.
-    unfold arr_of. rewrite <- Hk1. rewrite Hcs. replace (n - (n - k1)) with k1 by lia. f_equal.
+    unfold arr_ofo. rewrite <- Hk1. rewrite Hcs. replace (n - (n - k1)) with k1 by lia. f_equal.
     apply get_ext.
-    + rewrite length_lives_raws, <- Hk1, Hl'. unfold cap. lia.
-    + intros j. rewrite Hg', Hcs. rewrite (get_lives_raws V _ _ _ d), <- Hk1.
+    + rewrite length_objs_raws, <- Hk1, Hl'. unfold cap. lia.
+    + intros j. rewrite Hg', Hcs. rewrite get_objs_raws, <- Hk1.
       replace (n - (n - k1)) with k1 by lia.
       destruct (Nat.ltb_spec j k1).
       * destruct (Nat.leb_spec k1 j); [lia|]. simpl. apply H1; auto.
@@ -128,15 +129,87 @@ Proof.
         rewrite H3 by lia. destruct (Nat.ltb_spec j n); [lia|auto].
 Qed.
 
-(* InsertNogrow(array, index, Item&&) with a temporary (what InsertCrt / the ArrayItemHandler path passes) *)
-Theorem insert_rvalue_temp_refines (l : list V) r index v :
-  index <= length l -> 1 <= r ->
-  insert_nogrow_rvalue V self_move after_move true (arr_of l r) index (ArgVal v) =
-    Ok (arr_of (firstn index l ++ [v] ++ skipn index l) (r - 1)).
+(* ---- InsertNogrow(array, index, Item&&): the rvalue may be a temporary or an element in front of the insertion
+   point (Array::Insert moves every other aliased element into an ArrayItemHandler first).  The inserted object is
+   the OLD a[p]; a[p] itself is left as after_move says (moved-from); everything else as in the list insertion. ---- *)
+Lemma nth_lset {A} (l : list A) q y j d : q < length l -> nth j (lset l q y) d = if j =? q then y else nth j l d.
 Proof.
-  intros Hi Hr. unfold insert_nogrow_rvalue.
-  apply (insert_pure_refines V self_move after_move (source_rvalue V self_move after_move (ArgVal v)) l r index [v] v (fun _ => ArgVal v));
-    simpl; auto.
-  intros k Hk. destruct k; [reflexivity|lia].
+  revert q j; induction l; intros q j Hq; simpl in Hq; [lia|]. destruct q, j; simpl; auto. apply IHl; lia.
+Qed.
+Lemma length_lset {A} (l : list A) q y : length (lset l q y) = length l.
+Proof. revert q; induction l; intros [|q]; simpl; auto. Qed.
+
+Lemma firstn_set_lt (c : list cell) q x k : q < k -> firstn k (set c q x) = set (firstn k c) q x.
+Proof.
+  revert q k; induction c; intros q k Hk; destruct k; try lia; simpl; [destruct q; reflexivity|].
+  destruct q; simpl; auto. f_equal. apply IHc. lia.
+Qed.
+
+Lemma src_after_after_o (o : option V) : src_after V after_move o = mcell (after_o V after_move o).
+Proof. destruct o; reflexivity. Qed.
+
+(* the list after the rvalue argument has been moved out of *)
+Definition moved_out (l : list (option V)) (x : arg V) : list (option V) :=
+  match x with ArgVal _ => l | ArgRef q => lset l q (after_o V after_move (nth q l None)) end.
+
+Theorem insert_rvalue_refines (l : list (option V)) r index (x : arg V) :
+  index <= length l -> 1 <= r -> arg_ok V index x ->
+  insert_nogrow_rvalue V self_move after_move true (arr_ofo l r) index x =
+    Ok (arr_ofo (firstn index (moved_out l x) ++ [arg_val V l x] ++ skipn index (moved_out l x)) (r - 1)).
+Proof.
+  intros Hi Hr Hx. unfold insert_nogrow_rvalue.
+  destruct (arr_ofo_pre V l r) as (Hc & Hcap & Hlive & Hraw).
+  set (s0 := arr_ofo l r) in *.
+  set (o := arg_val V l x).
+  (* the prefix (cells below index) before and after the single fetch *)
+  set (pre0 := firstn index (cells s0)).
+  set (pre1 := match x with ArgVal _ => pre0 | ArgRef q => set pre0 q (src_after V after_move o) end).
+  set (Q := fun (m : nat) (pfx : list cell) => match m with 0 => pfx = pre0 | _ => pfx = pre1 end).
+  assert (Hobj : forall (s : arr) q, x = ArgRef q -> firstn index (cells s) = pre0 -> obj_at V (cells s) q = Ok o).
+  { intros s q -> Hp. simpl in Hx. apply obj_at_mcell. rewrite <- (get_firstn V (cells s) index q) by auto.
+    rewrite Hp. unfold pre0. rewrite get_firstn by auto. apply Hlive. lia. }
+  assert (HA : assign_hyp V (source_rvalue V self_move after_move x) index 1 (fun _ => o) Q).
+  { intros m k dst s Hm Hk Hd1 Hd2 Hd3 HQ. assert (m = 0) by lia. subst m. simpl in HQ.
+    assert (Hdl : dst < length (cells s)) by (apply get_not_raw_lt; auto).
+    destruct x as [v|q]; simpl.
+    - rewrite assign_val_ok by auto. unfold upd. eexists; split; [reflexivity|]. rewrite length_set.
+      repeat split; auto; try (intros j Hj; apply get_set; auto); try (rewrite firstn_set_ge by auto; auto).
+    - simpl in Hx. rewrite (Hobj s q eq_refl HQ). simpl.
+      destruct (Nat.eqb_spec q dst); [lia|]. rewrite assign_val_ok by auto. unfold upd. simpl.
+      eexists; split; [reflexivity|]. rewrite !length_set. repeat split; auto;
+        try (intros j Hj; rewrite get_set_other by lia; apply get_set; auto);
+        try (rewrite firstn_set_lt by lia; rewrite firstn_set_ge by lia; rewrite HQ; reflexivity). }
+  assert (HP : push_hyp V (source_rvalue V self_move after_move x) index 1 (fun _ => o) Q).
+  { intros m k s Hm Hk Hc1 Hc2 Hrw HQ. assert (m = 0) by lia. subst m. simpl in HQ.
+    destruct x as [v|q]; simpl.
+    - rewrite add_back_ctor_ok by auto. eexists; split; [reflexivity|]. rewrite length_set.
+      repeat split; auto; try (intros j Hj; apply get_set; auto); try (rewrite firstn_set_ge by auto; auto).
+    - simpl in Hx. rewrite (Hobj s q eq_refl HQ). simpl. rewrite add_back_ctor_ok by auto. simpl.
+      eexists; split; [reflexivity|]. cbn [cells cnt]. rewrite !length_set. repeat split; auto;
+        try (intros j Hj; rewrite get_set_other by lia; apply get_set; auto);
+        try (rewrite firstn_set_lt by lia; rewrite firstn_set_ge by lia; rewrite HQ; reflexivity). }
+  destruct (insert_nogrow_gen_post V self_move after_move _ index 1 _ Q HA HP s0 (fun j => nth j l None))
+    as (s' & -> & (Hc' & Hl' & HQ' & Hg')); try (rewrite ?Hc, ?Hcap; lia); auto.
+  { simpl. reflexivity. }
+  f_equal. destruct s' as [c' n']. simpl in Hc', Hl', HQ', Hg'. unfold arr_ofo.
+  assert (Hlm : length (moved_out l x) = length l) by (destruct x; simpl; auto using length_lset).
+  rewrite length_spec by lia. rewrite Hlm. simpl length. f_equal; [|lia].
+  assert (Hnm : forall j, j <> match x with ArgVal _ => length l | ArgRef q => q end ->
+                nth j (moved_out l x) None = nth j l None).
+  { intros j Hj. destruct x as [v|q]; simpl; auto. simpl in Hx. rewrite nth_lset by lia.
+    destruct (Nat.eqb_spec j q); [congruence|auto]. }
+  apply (insert_finish V (moved_out l x) [o] r index c'); simpl length; try lia.
+  - intros j Hj. rewrite <- (get_firstn V c' index j) by auto. rewrite HQ'. unfold pre1.
+    destruct x as [v|q].
+    + unfold pre0. rewrite get_firstn by auto. simpl. apply Hlive; lia.
+    + simpl in Hx. simpl moved_out. rewrite nth_lset by lia.
+      assert (Hql : q < length pre0) by (unfold pre0; rewrite firstn_length; unfold cap in Hcap; lia).
+      rewrite get_set by auto. destruct (Nat.eqb_spec j q).
+      * rewrite src_after_after_o. reflexivity.
+      * unfold pre0. rewrite get_firstn by auto. apply Hlive; lia.
+  - intros j Hj. rewrite Hg' by auto. rewrite Hlm.
+    destruct (Nat.ltb_spec j (index + 1)).
+    + replace (j - index) with 0 by lia. reflexivity.
+    + destruct (Nat.ltb_spec j (length l + 1)); auto. rewrite Hnm; auto. destruct x; simpl in *; lia.
 Qed.
 End FP.
